@@ -4,6 +4,9 @@ from fractions import Fraction
 from oracles.common import model_get, num, in_known
 
 
+_SHARED = {}
+
+
 def _real(topology, kind, n, s, v):
     from accelforge.model._looptree.reuse.symbolic import _network as N
     from accelforge.frontend._workload_isl._symbolic import Irrelevant, Relevant
@@ -15,10 +18,16 @@ def _real(topology, kind, n, s, v):
         def _get_physical_stride_along(self, dim):
             return 1
 
-    model = N.MeshTopologyModel() if topology == "mesh" else N.AllToAllTopologyModel()
     rel = Irrelevant() if kind == "multicast" else Relevant("r")
-    r = model.per_loop_transfer_cost(rel, shape_repeats=n, last_fanout=s, volume=v, src_component=Src(), dim_name="X")
-    return Fraction(r.total_cost).limit_denominator(10**9), Fraction(r.max_traffic).limit_denominator(10**9)
+    out = []
+    # a fresh model, and one model object per topology that is reused for every query of this
+    # run (the analyzer keeps its models for its lifetime: results must not depend on history)
+    if topology not in _SHARED:
+        _SHARED[topology] = N.get_topology_model(N.TopologySpec.MESH if topology == "mesh" else N.TopologySpec.ALL_TO_ALL)
+    for model in (N.MeshTopologyModel() if topology == "mesh" else N.AllToAllTopologyModel(), _SHARED[topology]):
+        r = model.per_loop_transfer_cost(rel, shape_repeats=n, last_fanout=s, volume=v, src_component=Src(), dim_name="X")
+        out.append((Fraction(r.total_cost).limit_denominator(10**9), Fraction(r.max_traffic).limit_denominator(10**9)))
+    return out[0] if out[0] == out[1] else out[1]
 
 
 def _mk_relevant():
@@ -57,12 +66,19 @@ def _routes(topology, kind, n, s, v):
 CLASSES = {"F8": lambda c: c["n"] == 1 and c["kind"] == "multicast"}
 
 
-def _case(topology, kind, n, s, v):
+def _case(topology, kind, n, s, v, _again=False):
     try:
         got = _real(topology, kind, n, s, v)
     except TypeError:
         raise
     want = _routes(topology, kind, n, s, v)
+    if got == want and not _again:
+        # the same loop shape once more with another volume (results must not depend on what the
+        # model object was asked before)
+        again = _case(topology, kind, n, s, Fraction(v) + 1, _again=True)
+        if again["failed"]:
+            again["history"] = f"after the same query with volume {v}"
+            return again
     return {"topology": topology, "kind": kind, "n": n, "s": s, "v": str(v), "observed": [str(x) for x in got], "required": [str(x) for x in want], "failed": got != want}
 
 
